@@ -11,7 +11,7 @@
    PARTIAL: isotherm uploads WITH auto-insert of the material / adsorbate read the per-process registries (refuted items below; their
    steps are judged inside Coq at run time, Db/DbShow.v spec_verdict); the isotherm PROPERTY types have no table at all (refuted item). *)
 From Coq Require Import ZArith List Bool.
-From PG Require Import Db.DbModel Db.DbSpec Db.DbRefine Db.DbInv Db.DbRefine2 Db.DbRefine3 Db.DbRefine4.
+From PG Require Import Db.DbModel Db.DbSpec Db.DbRefine Db.DbInv Db.DbRefine2 Db.DbRefine3 Db.DbRefine4 Db.DbBatch.
 Import ListNotations.
 Open Scope Z_scope.
 
@@ -188,3 +188,38 @@ Example history_refines_all_hypotheses_satisfiable :
                        IsoGet (mkC None None None None); IsoDel 100; EntDel EMat 30; TyDel TIso A_point] = true
   /\ wf empty_db.
 Proof. exact DbRefine4.history_refines_all_hypotheses_satisfiable. Qed.
+
+(* ---- the batching of isotherms_from_db (Db/DbBatch.v).  The model's isotherms_from_db has the structure of the code: one SELECT on
+   `isotherms`, then per batch of n rows one SELECT on isotherm_properties and one on isotherm_data.  For EVERY batch size n >= 1, every
+   criteria, every table content (any number of rows, below, at and above any multiple of the batch size) the batched retrieval returns the
+   plain retrieval - every matching row, in order, with ITS properties and data - and issues 1 + 2 * ceil(rows / n) statements (the count the
+   harness compares with the cursor.execute calls of every retrieval, on stores larger than the batch size too) *)
+Theorem batched_retrieval_is_plain_retrieval : forall n c d r k, (1 <= n)%nat ->
+  run None (iso_get_n n c) (mkSt d r k)
+  = (Good (retrieve c d), mkSt d r (k + 1 + 2 * nbatches n (length (filter (crit_ok c) (isos d))))).
+Proof. exact DbBatch.batched_retrieval_is_plain_retrieval. Qed.
+Print Assumptions batched_retrieval_is_plain_retrieval.
+(* the skeleton found in the source (Gen/DbShapeGen.v, generated on every run): batch size >= 1, grouped() runs over the rows materialised
+   by fetchall() and not over the live cursor the loop body re-uses, one execute before the loop and two per batch *)
+Example source_batching_hypotheses_hold :
+  (1 <= iso_batch)%nat /\ iso_batch_operand = Materialised /\ iso_stmts_before_loop = 1%nat /\ iso_stmts_per_batch = 2%nat.
+Proof. exact source_batching_hypotheses. Qed.
+(* hence the public function, with the batch size of the source: what it returns is the dictionary's isotherms that satisfy the criteria
+   (insertion order, own properties and data; plus the iso_type key of retrieved_isotherm_has_extra_key_refuted), nothing changes, and
+   2 + 2 * ceil(rows / batch) statements are issued *)
+Theorem isotherm_retrieval_refines_dictionary : forall c d r,
+  run_op (IsoGet c) d r = (OOk (RIsos (dict_retrieve c (abs d))), d, r, statements_of_retrieval c d).
+Proof. exact source_isotherms_from_db_refines_dictionary. Qed.
+Print Assumptions isotherm_retrieval_refines_dictionary.
+(* the hypothesis 1 <= n is needed (batch size 0: three rows match, nothing comes back); three rows in batches of two: 1 + 2 * 2 statements *)
+Theorem zero_batch_size_retrieves_nothing_refuted :
+  fst (run None (iso_get_n 0 (mkC None None None None)) (mkSt b_db (mkReg [] []) 0)) = Good []
+  /\ length (retrieve (mkC None None None None) b_db) = 3%nat.
+Proof. exact zero_batch_retrieves_nothing. Qed.
+Print Assumptions zero_batch_size_retrieves_nothing_refuted.
+Example store_larger_than_the_batch :
+  run None (iso_get_n 2 (mkC None None None None)) (mkSt b_db (mkReg [] []) 0)
+  = (Good (retrieve (mkC None None None None) b_db), mkSt b_db (mkReg [] []) 5)
+  /\ map o_props (retrieve (mkC None None None None) b_db)
+     = [[(A_iso_type, VText A_base)]; [(A_iso_type, VText A_base); (40, VNum 5)]; [(A_iso_type, VText A_base)]].
+Proof. exact batches_of_two_example. Qed.
